@@ -50,6 +50,10 @@ type SeedScenario struct {
 	Lim    string     `json:"lim"`
 	Script []SeedStep `json:"script"`
 	Tight  bool       `json:"tight"` // small pending-responses limit and a slow SendChunk
+	// Slow: sender queues of one task (MaxSenderTasks = 1, two senders), twice the chunk counts and a SendChunk
+	// that takes 500us: more chunks of one session are outstanding than a sender queue holds while the other
+	// sender is idle
+	Slow bool `json:"slow"`
 }
 
 // session ranges: Start/Stop of session id s (index s-1); the same for every peer
@@ -76,12 +80,16 @@ func RunSeederScenario(sc *SeedScenario, scen int, log *scenLog, stats map[strin
 	}
 	cf := rec{"start": seedStart, "stop": seedStop, "num": int(num), "size": int(size), "isize": seedItemSize,
 		"pendlimit": pendLimit, "oneresp": 1 + (maxItems+1)*seedItemSize}
-	log.emit(rec{"op": "reset", "scen": scen, "cf": cf, "lim": sc.Lim, "tight": sc.Tight, "script": sc.Script})
+	log.emit(rec{"op": "reset", "scen": scen, "cf": cf, "lim": sc.Lim, "tight": sc.Tight, "slow": sc.Slow, "script": sc.Script})
+	senderTasks, chunkFactor := 64, 1
+	if sc.Slow {
+		senderTasks, chunkFactor = 1, 2
+	}
 
 	var s *basestreamseeder.BaseSeeder
 	barrier := make(chan struct{}, 4)
 	s = basestreamseeder.New(basestreamseeder.Config{
-		SenderThreads: 2, MaxSenderTasks: 64, MaxPendingResponsesSize: pendLimit,
+		SenderThreads: 2, MaxSenderTasks: senderTasks, MaxPendingResponsesSize: pendLimit,
 		MaxResponsePayloadNum: 100, MaxResponsePayloadSize: 1 << 20, MaxResponseChunks: 4,
 	}, basestreamseeder.Callbacks{
 		ForEachItem: func(start basestream.Locator, _ basestream.RequestType, onKey func(basestream.Locator) bool, onAppended func(basestream.Payload) bool) basestream.Payload {
@@ -112,12 +120,17 @@ func RunSeederScenario(sc *SeedScenario, scen int, log *scenLog, stats map[strin
 	mkPeer := func(id string) basestreamseeder.Peer {
 		return basestreamseeder.Peer{ID: id,
 			SendChunk: func(r basestream.Response) error {
-				if sc.Tight {
-					time.Sleep(300 * time.Microsecond) // let the reader run ahead of the sender
-				}
+				// logged on entry: the order of the send lines of a session is the order in which SendChunk is entered
 				p := r.Payload.(*spay)
 				log.emit(rec{"op": "send", "p": id, "sid": int(r.SessionID), "items": append([]int{}, p.items...),
 					"size": int(p.TotalSize()), "done": r.Done, "pending": s.VerifPendingResponsesSize()})
+				if sc.Tight {
+					time.Sleep(300 * time.Microsecond) // let the reader run ahead of the sender, then sample again
+					log.emit(rec{"op": "pending", "pending": s.VerifPendingResponsesSize()})
+				}
+				if sc.Slow {
+					time.Sleep(500 * time.Microsecond) // a slow peer: later chunks queue up behind this one
+				}
 				smu.Lock()
 				stats["send"]++
 				if r.Done {
@@ -163,7 +176,8 @@ func RunSeederScenario(sc *SeedScenario, scen int, log *scenLog, stats map[strin
 	for _, st := range sc.Script {
 		switch st.Op {
 		case "request":
-			log.emit(rec{"op": "request", "p": st.P, "sid": st.Sid, "chunks": st.Chunks})
+			chunks := st.Chunks * chunkFactor
+			log.emit(rec{"op": "request", "p": st.P, "sid": st.Sid, "chunks": chunks})
 			smu.Lock()
 			if held[st.P][st.Sid] {
 				stats["resume"]++
@@ -174,7 +188,7 @@ func RunSeederScenario(sc *SeedScenario, scen int, log *scenLog, stats map[strin
 			held[st.P][st.Sid] = true
 			s.NotifyRequestReceived(mkPeer(st.P), basestream.Request{
 				Session:       basestream.Session{ID: uint32(st.Sid), Start: sloc(seedStart[st.Sid-1]), Stop: sloc(seedStop[st.Sid-1])},
-				MaxPayloadNum: num, MaxPayloadSize: size, MaxChunks: uint32(st.Chunks)})
+				MaxPayloadNum: num, MaxPayloadSize: size, MaxChunks: uint32(chunks)})
 		case "unregister":
 			log.emit(rec{"op": "unregister", "p": st.P})
 			held[st.P] = map[int]bool{}
@@ -188,14 +202,20 @@ func RunSeederScenario(sc *SeedScenario, scen int, log *scenLog, stats map[strin
 		}
 		log.emit(rec{"op": "quiet"})
 	}
+	smu.Lock()
 	if sc.Tight {
 		stats["tight"]++
 	}
+	if sc.Slow {
+		stats["slow"]++
+	}
+	smu.Unlock()
 	return nil
 }
 
 // CmdSeederRun: vh gsp-seeder <scenarios.ndjson> <trace.ndjson> [tightEvery]
-// every tightEvery-th scenario is run a second time with a tight pending-responses limit
+// every tightEvery-th scenario is run a second time with a tight pending-responses limit, another tightEvery-th
+// with slow peers and sender queues of one task
 // (tightEvery < 0: each scenario once, with its own "tight" flag).
 func CmdSeederRun(args []string) int {
 	if len(args) < 2 {
@@ -220,15 +240,19 @@ func CmdSeederRun(args []string) int {
 		if err := json.Unmarshal(raw, &s); err != nil {
 			return fmt.Errorf("bad scenario: %v", err)
 		}
-		variants := []bool{false}
+		type variant struct{ tight, slow bool }
+		variants := []variant{{false, false}}
 		if tightEvery > 0 && idx%tightEvery == 0 {
-			variants = append(variants, true)
+			variants = append(variants, variant{true, false})
+		}
+		if tightEvery > 0 && idx%tightEvery == tightEvery/2 {
+			variants = append(variants, variant{false, true})
 		}
 		if tightEvery < 0 { // replay: as recorded
-			variants = []bool{s.Tight}
+			variants = []variant{{s.Tight, s.Slow}}
 		}
-		for _, tight := range variants {
-			s.Tight = tight
+		for _, v := range variants {
+			s.Tight, s.Slow = v.tight, v.slow
 			log := &scenLog{}
 			st := map[string]int{}
 			if err := RunSeederScenario(&s, idx, log, st); err != nil {
